@@ -9,6 +9,8 @@ CONST = """CONSTANTS
   GChars = %(GChars)s
   NChars = %(NChars)s
   Nums = %(Nums)s
+  BigNums = %(BigNums)s
+  OpenNums = %(OpenNums)s
   WithMalformed = %(WithMalformed)s
 """
 MC = "SPECIFICATION Spec\n" + CONST + "  MaxLen = %(MaxLen)s\nINVARIANTS IndexInBounds BoundedSteps AgreesWithMeaning\nPROPERTIES Progress Terminates\nCHECK_DEADLOCK FALSE\n"
@@ -16,8 +18,10 @@ GEN = "SPECIFICATION GSpec\n" + CONST + "CHECK_DEADLOCK FALSE\n"
 # VERIF_C12_XT_OPEN=1 (self-tests only): leave the selection of a lone -xt/-xst open instead of demanding the help text's meaning
 XT = "FALSE" if os.environ.get("VERIF_C12_XT_OPEN") == "1" else "TRUE"
 TRACE = "SPECIFICATION %(spec)s\nCONSTANTS\n  XtDocumented = %(xt)s\n%(tail)s\nCHECK_DEADLOCK FALSE\n"
-BIG = dict(GChars="{65, 66}", NChars="{120, 121}", Nums="{3, 12}", WithMalformed="TRUE")
-SMALL = dict(GChars="{65}", NChars="{120}", Nums="{3}", WithMalformed="TRUE")
+# counts / seeds are digit strings: Nums are written by Digits(), BigNums / OpenNums name texts of CmdLineLattice.NumText
+# (inside / outside the documented range 1..2^32-1); the numeric vectors (LEN = "num") always use every text
+BIG = dict(GChars="{65, 66}", NChars="{120, 121}", Nums="{3}", BigNums='{"007", "2^31", "2^32-1"}', OpenNums='{"2^32"}', WithMalformed="TRUE")
+SMALL = dict(GChars="{65}", NChars="{120}", Nums="{3}", BigNums='{"2^31"}', OpenNums="{}", WithMalformed="TRUE")
 
 
 def enc(b):
@@ -80,6 +84,24 @@ def rnd_ident(rng):
     return "".join(rng.choice("ABxyAB_z09") for _ in range(rng.choice([1, 1, 2, 3, 8])))
 
 
+def rnd_number(rng, opt):
+    """A count / seed of the documented range 1..2^32-1 as decimal text: small (the tests then run that often), around the
+    31/32-bit edges, any ten-digit value (what the runner prints as its clock seed), with or without leading zeros."""
+    r = rng.random()
+    if r < (0.6 if opt == "-r" else 0.3):
+        v = rng.choice([1, 2, 3, 7, 12, 40, 100])
+    elif r < 0.75:
+        v = rng.choice([2 ** 31 - 1, 2 ** 31, 2 ** 31 + 1, 2 ** 32 - 1, 2 ** 32 - 2, 3000000123, 10 ** 9, 101, 65536])
+    elif r < 0.9:
+        v = rng.randint(2 ** 31, 2 ** 32 - 1)
+    else:
+        v = rng.randint(1, 2 ** 32 - 1)
+    t = str(v)
+    if rng.random() < 0.15:
+        t = "0" * rng.choice([1, 2, 10 - min(len(t), 9)]) + t
+    return t
+
+
 def rnd_doc_vector(rng):
     """A vector of the documented language with arbitrary identifier-like values, in any order and multiplicity."""
     v = []
@@ -88,9 +110,9 @@ def rnd_doc_vector(rng):
         if r < 0.35:
             v.append(rng.choice(["-v", "-vv", "-c", "-p", "-b", "-lg", "-ln", "-ll", "-ri", "-f", "-e", "-ci"]))
         elif r < 0.45:
-            n = str(rng.choice([1, 2, 3, 7, 12, 40]))
-            form = rng.random()
             opt = rng.choice(["-r", "-s"])
+            n = rnd_number(rng, opt)
+            form = rng.random()
             if form < 0.4:
                 v.append(opt + n)
             elif form < 0.8:
@@ -128,6 +150,11 @@ def rnd_wild_vector(rng):
         elif r < 0.6:
             t = rng.choice(DOC_PIECES).encode() + bytes(rng.choice(b"A.x,) (-09\xe9\x80") for _ in range(rng.randint(0, 6)))
             v.append(t)
+        elif r < 0.66:
+            # digit strings of any length and size after -r / -s (attached or separated), signs, zeros
+            num = rng.choice(["", "-", "+"]) * (rng.random() < 0.2) + "".join(rng.choice("0123456789") for _ in range(rng.choice([1, 9, 10, 10, 11, 20, 25])))
+            opt = rng.choice(["-r", "-s"])
+            v += [(opt + num).encode()] if rng.random() < 0.5 else [opt.encode(), num.encode()]
         elif r < 0.8:
             t = bytearray(rng.choice(rnd_doc_vector(rng) or [b"-v"]))
             if t and rng.random() < 0.7:
@@ -211,6 +238,18 @@ def run(ctx):
     ctx.rng.shuffle(allvec)
     ex = go("vectors", allvec)
     ctx.sample({"source": "TLC vectors (Gen_CmdLine)", "execution": [show(l[1:]) for l in ex[0][1:9]]})
+    # ---- leg 2n: the numeric vectors written by TLC: -r / -s with every count / seed text (2^31-1, 2^31, ten digits, 2^32-1, leading zeros;
+    #      zero, 2^32 and beyond) attached and separated, alone and next to one other token
+    gcfg = ctx.write_cfg("Gen_CmdLine_num", GEN % BIG)
+    outp = os.path.join(ctx.work, "vecnum.ndjson")
+    ctx.tlc("Gen_CmdLine", gcfg, workers=1, env={"OUT": outp, "PROBE": os.path.join(ctx.work, "probe.ndjson"), "LEN": "num"}, timeout=600, heap="4g", count=False)
+    numvec = [[bytes(t) for t in json.loads(l)["tok"]] for l in open(outp) if l.strip()]
+    if len(numvec) < 200:
+        raise Infra("only %d numeric vectors generated" % len(numvec))
+    ctx.notes["numeric_vectors"] = len(numvec)
+    ctx.rng.shuffle(numvec)
+    ex = go("numbers", numvec, per=100)
+    ctx.sample({"source": "TLC numeric vectors (Gen_CmdLine, LEN=num)", "execution": [show(l[1:]) for l in ex[0][1:9]]})
 
     # ---- leg 3: seeded random vectors: documented language with arbitrary identifier-like values; arbitrary bytes (safety only)
     ndoc, nwild = (3000, 3000) if quick else (60000, 60000)
@@ -220,6 +259,18 @@ def run(ctx):
     wild = [rnd_wild_vector(ctx.rng) for _ in range(nwild)]
     ex = go("random_bytes", wild)
     ctx.sample({"source": "seeded random byte vectors", "execution": [show(l[1:]) for l in ex[0][1:5]]})
+    # the documented way to repeat an order: feed the seed the runner derived from the clock (and reports) back with -s
+    def given(e):     # does the vector itself carry the configured seed?
+        seed = bytes(e["seed"]).lstrip(b"0")
+        return any(c.isdigit() and c.lstrip(b"0") == seed for t in e["tok"] for c in (bytes(t), bytes(t)[2:]))
+    clock = []
+    for lab in ("random_documented", "vectors"):
+        for e in log_of(ctx, lab):
+            if len(clock) < 20 and e.get("op") == "argv" and e.get("acc") and e.get("shuffle") and not given(e) and bytes(e["seed"]) not in clock:
+                clock.append(bytes(e["seed"]))
+    ctx.notes["clock_seeds_fed_back"] = len(clock)
+    if clock:
+        go("seed_feedback", [[b"-s" + c] for c in clock] + [[b"-s", c] for c in clock] + [[b"-b", b"-s", c, b"-v"] for c in clock[:5]])
     # the help text's meaning of a lone -xt / -xst, confronted on one vector each (class key, see fixes/C12-xt-exclusion-semantics.md)
     if XT == "TRUE":
         for k, v in enumerate(([b"-xt", b"A.x"], [b"-xstA.x"])):
@@ -232,13 +283,17 @@ def run(ctx):
     return ctx.finish(
         rule="executions = chunks of <= 400 argument vectors, each parsed by the real CommandLineArguments (getters logged) and run through the real "
              "CommandLineTestRunner on a 10-test probe registry (ASan+UBSan build, tokens in exact-size heap blocks); vectors = every vector of <= 2 "
-             "tokens over the 116-token alphabet written by TLC (<= 3 tokens over the reduced alphabet in the thorough tier) + seeded random documented "
+             "tokens over the token alphabet written by TLC + the numeric vectors (-r / -s with every count / seed text, attached and separated) (<= 3 tokens over the reduced alphabet in the thorough tier) + seeded random documented "
              "vectors + seeded random byte vectors; meaning of each vector computed by TLC (Trace_CmdLine); distinct non-trivial = distinct vectors "
              "that were rejected or produced filters",
         distinct_nontrivial=len(nontrivial), exhaustive=False,
-        assumptions=["documented language: exact flags, longest documented option name + attached or separated value, identifier-like values, positive counts "
-                     "without leading zero, [IGNORE_]TEST(group, name) with ', ' separator; everything else is only required to be safe",
+        assumptions=["documented language: exact flags, longest documented option name + attached or separated value, identifier-like values, "
+                     "[IGNORE_]TEST(group, name) with ', ' separator; everything else is only required to be safe",
+                     "repeat counts and shuffle seeds are decimal digit strings compared as digit sequences (leading zeros ignored); documented range 1..2^32-1 "
+                     "(the unsigned values the runner itself derives from the clock and reports); 2^32 and more, -r0, a separated zero are left open; "
+                     "an attached zero seed (-s0) must be rejected: the help text says the seed 'must be greater than 0' - the only value it declares invalid",
                      "selection follows C02's rule per filter list; a lone -xt/-xst is read as the help text states it (exclude tests whose group AND name match)",
                      "memory safety is observed by ASan/UBSan on the executed vectors; plugin arguments (-p<x>) only as 'no plugin accepts them'",
-                     "time-based shuffle seed: any seed > 0 is accepted; order of execution is C02's subject (only run counts are compared)"],
+                     "time-based shuffle seed: any seed > 0 is accepted; order of execution is C02's subject (only run counts are compared)",
+                     "the probe registry is not run for repeat counts above 100 (the configuration is still compared exactly)"],
         extra={"executions": nexec})
